@@ -44,9 +44,10 @@ var c05Exprs = map[string]struct {
 	"lit0": {"0", 0}, "litfalse": {"false", false}, "litempty": {"''", ""}, "lit7": {"7", 7}, "littrue": {"true", true}, "litstr": {"'s'", "s"},
 	"notT": {"!boolT", false}, "notF": {"!boolF", true}, "cmpF": {"int7>9", false}, "cmpT": {"int7>3", true}, "sum": {"int7 + 1", 8},
 	// an object literal is a value of its own: a map of its keys with the typed values
-	"obj": {"{k: int7, s: 'x'}", map[string]any{"k": 7, "s": "x"}},
+	"obj":    {"{k: int7, s: 'x'}", map[string]any{"k": 7, "s": "x"}},
+	"objarr": {"{ids: [1, 2], n: int7}", map[string]any{"ids": []any{1, 2}, "n": 7}},
 }
-var c05ExprNames = []string{"lit0", "litfalse", "litempty", "lit7", "littrue", "litstr", "notT", "notF", "cmpF", "cmpT", "sum", "obj"}
+var c05ExprNames = []string{"lit0", "litfalse", "litempty", "lit7", "littrue", "litstr", "notT", "notF", "cmpF", "cmpT", "sum", "obj", "objarr"}
 
 var c05BoundNames = []string{"int7", "float", "str", "boolT", "slice", "map", "jsonarr", "jsonobj", "zero", "boolF", "empty", "nilv", "missing"}
 
@@ -292,7 +293,64 @@ func (c *c05Case) runWide(ctx *core.Ctx, n int) {
 	ctx.Outcome(out)
 }
 
+// c05Places: where an include can be written. %s is the include (either spelling).
+var c05Places = map[string]string{
+	"svg":       `<svg viewBox="0 0 9 9"><g>%s</g></svg>`,
+	"math":      `<math><mrow>%s</mrow></math>`,
+	"table":     `<table><tbody><tr><td>%s</td></tr></tbody></table>`,
+	"list":      `<ul><li>%s</li></ul>`,
+	"p":         `<p>text %s more</p>`,
+	"button":    `<button type="button">%s</button>`,
+	"pre":       `<pre>%s</pre>`,
+	"tmplif":    `<template v-if="o">%s</template>`,
+	"details":   `<details><summary>s</summary>%s</details>`,
+	// (not inside <foreignObject>: golang.org/x/net/html loses a <template> there together with
+	// everything that follows it, before vuego sees the document)
+	"label":     `<label>l %s</label>`,
+	"heading":   `<h2>%s</h2>`,
+}
+
+// runPlace: a registered shorthand tag behaves exactly like the equivalent <template include>
+// wherever it is written (differential: the two spellings give the same bytes / the same error)
+func (c *c05Case) runPlace(ctx *core.Ctx, place string) {
+	ctx.NonTrivial()
+	comp := "---\nfill: red\n---\n<template :required=\"cx, r\"><circle :cx=\"cx\" :r=\"r\" :fill=\"fill\" data-l=\"{{ label }}\">{{ cx | type }}</circle></template>"
+	props := ` :cx="int7" r="2" fill="blue" label="dot {{ o }}"`
+	if c.Req == "a" {
+		props = ` :cx="int7" label="x"` // r is missing
+	}
+	render := func(inc string) (string, error) {
+		files := Files{"components/IconDot.vuego": comp, "page.vuego": `<div id="inc">` + fmt.Sprintf(c05Places[place], inc) + `</div><p id="leak">{{ cx }}{{ r }}</p>`}
+		ctx.Eval(1)
+		return renderPage(files, "page.vuego", map[string]any{"o": "OUT", "int7": 7}, vuego.WithComponents())
+	}
+	explicit, err1 := render(`<template include="components/IconDot.vuego"` + props + `></template>`)
+	short, err2 := render(`<icon-dot` + props + `></icon-dot>`)
+	if (err1 != nil) != (err2 != nil) || explicit != short {
+		ctx.Violation("shorthand-differs", "place/"+place, "req="+c.Req, fmt.Sprintf("<template include> gives %q (err %v); the shorthand tag gives %q (err %v)", clip(explicit, 300), err1, clip(short, 300), err2))
+		return
+	}
+	if c.Req == "a" {
+		if err1 == nil || !strings.Contains(err1.Error(), "r") {
+			ctx.Violation("required-not-enforced", "place/"+place, "explicit", fmt.Sprintf("missing r: err=%v out %q", err1, clip(explicit, 200)))
+		}
+		return
+	}
+	if err1 != nil {
+		ctx.Violation("render-error", "place/"+place, "explicit", err1.Error())
+		return
+	}
+	if !strings.Contains(explicit, `cx="7"`) || !strings.Contains(explicit, `fill="red"`) || !strings.Contains(explicit, `data-l="dot OUT"`) {
+		ctx.Violation("prop-value", "place/"+place, "explicit", fmt.Sprintf("component not rendered with its props and front-matter: %q", clip(explicit, 300)))
+	}
+	ctx.Outcome(explicit)
+}
+
 func (c *c05Case) Run(ctx *core.Ctx) {
+	if strings.HasPrefix(c.Shape, "place:") {
+		c.runPlace(ctx, strings.TrimPrefix(c.Shape, "place:"))
+		return
+	}
 	if strings.HasPrefix(c.Shape, "wide:") {
 		var n int
 		fmt.Sscanf(c.Shape, "wide:%d", &n)
@@ -476,7 +534,7 @@ func init() {
 	core.Register(&core.Check{
 		ID:    "C05",
 		Level: "exploration",
-		Rule: "every combination of prop a {omitted, static, interpolated, :bound / v-bind: to 11 values of every JSON-like type incl. 0/false/\"\"/nil/undefined, bound to 11 expressions that are not data paths (literals 0 / false / '' / 7 / true / 's', negations, comparisons, a sum)} x prop b {omitted, static, bound} x includer defines a / not x component front-matter defines a / defines it as null / not x :required {none, a, 'a, b', repeated, :require} x shape {single, twice with different props, inside v-for, nested include, include carrying v-if, include carrying v-else, include inside the slot content of the include} - the inner includes of the nested and slot shapes in shorthand form too - x {explicit include, registered shorthand}; plus includes carrying 1..14 props of alternating forms (static, bound expression, interpolated, v-bind:); " +
+		Rule: "every combination of prop a {omitted, static, interpolated, :bound / v-bind: to 11 values of every JSON-like type incl. 0/false/\"\"/nil/undefined, bound to 11 expressions that are not data paths (literals 0 / false / '' / 7 / true / 's', negations, comparisons, a sum)} x prop b {omitted, static, bound} x includer defines a / not x component front-matter defines a / defines it as null / not x :required {none, a, 'a, b', repeated, :require} x shape {single, twice with different props, inside v-for, nested include, include carrying v-if, include carrying v-else, include inside the slot content of the include} - the inner includes of the nested and slot shapes in shorthand form too - x {explicit include, registered shorthand}; plus the two spellings of an include compared byte for byte in 11 places (inside svg, math, table cells, lists, paragraphs, buttons, pre, labels, headings, details, a conditional template), with all props and with a required one missing; plus includes carrying 1..14 props of alternating forms (static, bound expression, interpolated, v-bind:); " +
 			"oracle: reference scope model for the values and types printed inside, the includer's following siblings, error iff a required name was not provided, shorthand byte-identical. non-trivial = all",
 		Bounds:      map[string]string{"quick": "full product (include depth <= 2, fan-out <= 2)", "thorough": "same product"},
 		Assumptions: []string{"a required name that is visible from the includer's scope or the component's front-matter although the include does not pass it, and bindings of nil/undefined values, are unconstrained"},
@@ -489,6 +547,10 @@ func init() {
 			aForms = append(aForms, "vbind:int7", "vbind:zero", "vbind:str")
 			for _, n := range c05ExprNames {
 				aForms = append(aForms, "expr:"+n)
+			}
+			for place := range c05Places {
+				emit(&c05Case{Shape: "place:" + place, Req: "none"})
+				emit(&c05Case{Shape: "place:" + place, Req: "a"})
 			}
 			for n := 1; n <= 14; n++ {
 				emit(&c05Case{Shape: fmt.Sprintf("wide:%d", n)})
